@@ -459,7 +459,10 @@ def norm_xy(
     _mean = pts.mean(axis=0)
     XX = np.subtract(pts, _mean, out=out)
 
-    sx = (((XX**2).sum(axis=1) * 0.5) ** -0.5).mean()
+    # mean distance from 0 becomes sqrt(2),
+    # using mean of distances rather than of their inverses: a point can coincide with the mean
+    dd = np.sqrt((XX**2).sum(axis=1)).mean()
+    sx = float(np.sqrt(2) / dd) if dd > 0 else 1.0
     XX *= sx
 
     tx, ty = -_mean * sx
